@@ -523,19 +523,35 @@ static ares_status_t ares_append_requeue(ares_array_t **requeue,
                                          ares_server_t *server)
 {
   ares_requeue_t entry;
+  ares_status_t  status;
+
+  /* The caller may be about to tear down the connection, the query must not
+   * stay attached to it (or keep its timeout tracking) whatever happens next */
+  ares_query_remove_from_conn(query);
 
   if (*requeue == NULL) {
     *requeue = ares_array_create(sizeof(ares_requeue_t), NULL);
     if (*requeue == NULL) {
-      return ARES_ENOMEM;
+      status = ARES_ENOMEM;
+      goto fail;
     }
   }
 
-  ares_query_remove_from_conn(query);
-
   entry.qid    = query->qid;
   entry.server = server;
-  return ares_array_insertdata_last(*requeue, &entry);
+  status       = ares_array_insertdata_last(*requeue, &entry);
+  if (status != ARES_SUCCESS) {
+    goto fail;
+  }
+
+  return ARES_SUCCESS;
+
+fail:
+  /* The re-send can't be scheduled and the query is no longer tracked by any
+   * connection or timeout: fail it now rather than leave it orphaned until
+   * the channel is destroyed */
+  end_query(query->channel, NULL, query, status, NULL);
+  return status;
 }
 
 static ares_status_t read_answers(ares_conn_t *conn, const ares_timeval_t *now)
